@@ -6,6 +6,7 @@
 //	metrics jwin <from> <to> <start:end:ip.ip...;...>   hand-built journal (real sketches, chosen timestamps)
 //	metrics jwrite <k> <a<tick>.<ip>,f<tick>,...>        real ClusterWriter driven in real time on a tick grid
 //	metrics jkey <k1>.<k2> <ip.ip...>                    what a chunk stores: the sketch of HMAC-SHA3-256(key, address), nothing else
+//	metrics jbig <n>                                     three chunks of 5, n, 7 addresses read back over the whole span
 //	metrics jwf <k> <plan> <a<tick>.<ip>,f<tick>,...>    jwrite against a sink whose i-th Write call behaves as plan[i]:
 //	                                                     o ok, s ok but Sync fails, n error with nothing written, t error after half
 //	                                                     the line, l error after all but the newline, w whole line written and error
@@ -436,8 +437,56 @@ func jkey(args []string) string {
 	return fmt.Sprintf("journal=%s n=%d own=%d other=%d nokey=%d", shape, n, own, other, raw)
 }
 
+// jbig: a journal of three chunks [0,1] [1,2] [2,3] holding 5, n and 7 addresses (all different), read over [0,3].
+// The middle line grows with n; what is reported is the number of chunks the reader included and whether its
+// estimate is within 1 % of n + 12.
+func jbig(args []string) string {
+	n, err := strconv.Atoi(args[0])
+	if err != nil || n < 0 || n > 2000000 {
+		return "!badcase"
+	}
+	var journal bytes.Buffer
+	next := 1 << 20
+	for i, cnt := range []int{5, n, 7} {
+		sink := ipsetsink.NewIPSetSink("verif-key")
+		for k := 0; k < cnt; k++ {
+			sink.AddIPToSet(ipString(strconv.Itoa(next)))
+			next++
+		}
+		data, err := sink.Dump()
+		if err != nil {
+			return "!dump " + err.Error()
+		}
+		line, err := json.Marshal(sinkcluster.SinkEntry{RecordingStart: epoch.Add(time.Duration(i)), RecordingEnd: epoch.Add(time.Duration(i + 1)), Recorded: data})
+		if err != nil {
+			return "!marshal " + err.Error()
+		}
+		journal.Write(line)
+		journal.WriteByte('\n')
+	}
+	r, err := sinkcluster.NewClusterCounter(epoch, epoch.Add(3)).Count(&journal)
+	if err != nil {
+		return "!count " + err.Error() // a reader that refuses is not a reader that miscounts
+	}
+	want := float64(n + 12)
+	tol := want / 100
+	if tol < 1 {
+		tol = 0.5
+	}
+	verdict := "ok"
+	if float64(r.Sum) < want-tol {
+		verdict = "low:" + strconv.FormatUint(r.Sum, 10)
+	} else if float64(r.Sum) > want+tol {
+		verdict = "high:" + strconv.FormatUint(r.Sum, 10)
+	}
+	return fmt.Sprintf("chunks=%d sum=%s", r.ChunkIncluded, verdict)
+}
+
 func main() {
 	wire.Loop(func(a []string) string {
+		if len(a) == 2 && a[0] == "jbig" {
+			return jbig(a[1:])
+		}
 		if len(a) == 3 && a[0] == "jkey" {
 			return jkey(a[1:])
 		}
